@@ -81,6 +81,59 @@ func (b *Batch) Add(pkg, variant string, d *Decorated) *Item {
 	return it
 }
 
+// AddText generates a parser from a ready-made .y text (no harness actions).
+func (b *Batch) AddText(pkg, variant, text string) *Item {
+	it := &Item{Pkg: pkg, Variant: variant, Text: text}
+	dir := filepath.Join(b.Dir, pkg)
+	os.MkdirAll(dir, 0o755)
+	lang := "go"
+	it.File = filepath.Join(dir, "parser.go")
+	if variant == TS {
+		lang = "typescript"
+		it.File = filepath.Join(dir, "parser.ts")
+	}
+	res := ygo.Generate(lang, text, it.File, ygo.Options{Fuel: 50_000_000, Unpack: IsUnpack(variant), Object: IsObject(variant)})
+	it.Stdout = res.Stdout
+	if res.Err != nil || res.Panic != "" || res.Fuel {
+		it.GenDiag = res.Diag()
+		os.RemoveAll(dir)
+	}
+	b.Items = append(b.Items, it)
+	b.byPkg[pkg] = it
+	return it
+}
+
+// BuildAll compiles every generated Go package (go build ./...), recording
+// compiler errors per package. No driver is linked.
+func (b *Batch) BuildAll() error {
+	os.Remove(filepath.Join(b.Dir, "main.go"))
+	os.Remove(filepath.Join(b.Dir, "sched.go"))
+	cmd := exec.Command("go", "build", "-gcflags=-e", "./...")
+	cmd.Dir = b.Dir
+	cmd.Env = append(os.Environ(), "GOFLAGS=-mod=mod", "GOMAXPROCS=4")
+	out, err := cmd.CombinedOutput()
+	if err == nil {
+		return nil
+	}
+	ms := buildErrRe.FindAllStringSubmatch(string(out), -1)
+	if len(ms) == 0 {
+		return fmt.Errorf("go build failed:\n%s", tail(string(out), 3000))
+	}
+	for _, m := range ms {
+		it := b.byPkg[m[1]]
+		if it == nil {
+			continue
+		}
+		msg := fmt.Sprintf("parser.go:%s:%s: %s", m[2], m[3], m[4])
+		if it.BuildErr == "" {
+			it.BuildErr = msg
+		} else if len(it.BuildErr) < 500 && !strings.Contains(it.BuildErr, m[4]) {
+			it.BuildErr += "; " + msg
+		}
+	}
+	return nil
+}
+
 func (b *Batch) Item(pkg string) *Item { return b.byPkg[pkg] }
 
 var buildErrRe = regexp.MustCompile(`(?m)^(?:\./)?([A-Za-z0-9_]+)/parser\.go:(\d+):(\d+): (.*)$`)
